@@ -219,6 +219,25 @@ impl Prop for C09 {
             let (rq, rs) = if r.chance(1, 8) { (http1::lf_variant(r, rq), http1::lf_variant(r, rs)) } else { (rq, rs) };
             (rq.bytes, rq.head_len, rs.bytes, rs.head_len)
         };
+        // one HTTP/1 exchange in ten: request and response of exactly the same length (the shorter head gets a
+        // padding header right behind its first line) - lengths that coincide are a thing two directions can share
+        let (mut req, mut req_head_len, mut resp, mut resp_head_len) = (req, req_head_len, resp, resp_head_len);
+        if !h2 && r.chance(1, 10) && req.len() != resp.len() {
+            let diff = req.len().abs_diff(resp.len());
+            if diff >= 8 {
+                let (msg, head_len) = if req.len() < resp.len() { (&mut req, &mut req_head_len) } else { (&mut resp, &mut resp_head_len) };
+                if let Some(p) = msg.windows(2).position(|w| w == b"\r\n") {
+                    if p + 2 <= *head_len {
+                        let mut line = b"X-P: ".to_vec();
+                        line.extend(std::iter::repeat(b'a').take(diff - 7));
+                        line.extend_from_slice(b"\r\n");
+                        let at = p + 2;
+                        msg.splice(at..at, line);
+                        *head_len += diff;
+                    }
+                }
+            }
+        }
         let v6 = r.chance(1, 5);
         let cport = 40000 + r.below(20000) as u16;
         let sport = *r.pick(&[80u16, 8080, 8000, 443, 3128]);
@@ -269,6 +288,9 @@ impl Prop for C09 {
         };
         let isn_c = isn(r, req.len());
         let isn_s = isn(r, resp.len());
+        // one connection in twelve: both sides picked the same initial sequence number (hosts that derive it from
+        // a shared clock, test rigs, a 2^-32 coincidence otherwise)
+        let isn_s = if r.chance(1, 12) { isn_c } else { isn_s };
         let nc = segs(req.len(), &c_cuts).len();
         let ns = segs(resp.len(), &s_cuts).len();
         // arrival order: permutation within each direction with bounded displacement, then interleave
